@@ -87,7 +87,7 @@ m("add-device-any-port-valid", "C32", "src/sim/device.rs", "            .all(|m_
 m("display-always-ready", "C33", "src/sim/device/display.rs", "    fn ready(&self) -> bool {\n        self.try_output().is_some()\n    }", "    fn ready(&self) -> bool {\n        true\n    }")
 m("timer-reset-on-fire", "C34", "src/sim/device/timer.rs", "            1 => {\n                self.time = 0;", "            1 => {\n                self.time = self.try_generate_time();")
 m("timer-disabled-still-counts", "C34", "src/sim/device/timer.rs", "        if !self.enabled { return None };\n", "        if !self.enabled { self.time = self.time.saturating_sub(1); return None };\n")
-m("display-label-separator", "C36", "src/ast/asm.rs", "        for label in &self.labels {\n            label.fmt(f)?;\n            f.write_char(' ')?;\n        }", "        for label in &self.labels {\n            label.fmt(f)?;\n            if self.labels.len() < 2 { f.write_char(' ')?; } else { f.write_char(':')?; }\n        }")
+m("display-label-separator", "C36", "src/ast/asm.rs", "        for label in &self.labels {\n            label.fmt(f)?;\n            f.write_char(' ')?;\n        }", "        for label in &self.labels {\n            label.fmt(f)?;\n            if label.name.len() > 1 { f.write_char(' ')?; }\n        }")
 m("display-fill-hex", "C36", "src/ast/asm.rs", "            Self::Fill(val)    => write!(f, \".fill {val}\"),", "            Self::Fill(PCOffset::Offset(o)) if o.get() > 0x7FFF => write!(f, \".fill #{}\", o.get() as i16 as i32 - 1),\n            Self::Fill(val)    => write!(f, \".fill {val}\"),")
 
 SPECIAL = {
